@@ -198,10 +198,9 @@ fn etag_match(which: u8, has_etag: bool) {
         assert!(nm == Some(!(star || weak)), "C04: If-None-Match decision deviates (weak comparison, `*` matches)");
         assert!(any_match(&etag, &h) == Ok(true), "C04: If-Match decision without the header");
     }
-    if has_etag {
-        kani::cover!(strong, "strong match");
-        kani::cover!(weak && !strong, "weak-only match");
-    }
+    // (a cover in unreachable code counts as unsatisfied: keep them reachable in every instance)
+    kani::cover!(!has_etag || strong, "strong match");
+    kani::cover!(!has_etag || (weak && !strong), "weak-only match");
     kani::cover!(r == Some(2) && !weak, "two tags, no match");
 }
 
